@@ -451,6 +451,52 @@ func init() {
 		return in.tb.BoolC(false)
 	}
 
+	// vxBox / vxUnbox: stand-in for a serialiser pair (json.Marshal/Unmarshal, proto...): the value graph is deep-copied
+	// into a per-path table and an opaque concrete handle is returned; unboxing an unknown handle fails.
+	V["vxBox"] = func(in *Interp, fn *ssa.Function, a []Value) Value {
+		iv, _ := a[0].(*IfaceV)
+		var payload Value
+		if iv != nil {
+			payload = iv.v
+			if c, ok := payload.(*Cell); ok && c != nil {
+				payload = c.v // box the pointee
+			}
+		}
+		in.boxes = append(in.boxes, in.deepCopy(payload, map[*Cell]*Cell{}))
+		idx := len(in.boxes) - 1
+		h := []*Term{}
+		for _, b := range []byte{0xB0, 0x0B, byte(idx >> 8), byte(idx), 0xB0, 0x0B, 0x00, 0x01} {
+			h = append(h, in.tb.Const(8, uint64(b)))
+		}
+		return in.sliceFromTerms(h)
+	}
+	V["vxUnbox"] = func(in *Interp, fn *ssa.Function, a []Value) Value {
+		bs := in.bytesOf(a[0])
+		if len(bs) != 8 {
+			return in.tb.BoolC(false)
+		}
+		for idx := range in.boxes {
+			want := []byte{0xB0, 0x0B, byte(idx >> 8), byte(idx), 0xB0, 0x0B, 0x00, 0x01}
+			m := in.tb.BoolC(true)
+			for i, b := range want {
+				m = in.tb.And(m, in.tb.Eq(bs[i], in.tb.Const(8, uint64(b))))
+			}
+			if in.ex.Branch(m) {
+				out, _ := a[1].(*IfaceV)
+				if out == nil {
+					in.goPanicStr("vxUnbox: nil target")
+				}
+				tgt, ok := out.v.(*Cell)
+				if !ok || tgt == nil {
+					in.goPanicStr("vxUnbox: target is not a pointer")
+				}
+				tgt.v = in.deepCopy(in.boxes[idx], map[*Cell]*Cell{})
+				return in.tb.BoolC(true)
+			}
+		}
+		return in.tb.BoolC(false)
+	}
+
 	// ----- errors / fmt -----
 	I["errors.New"] = func(in *Interp, fn *ssa.Function, a []Value) Value { return in.mkErr(a[0]) }
 	I["fmt.Errorf"] = func(in *Interp, fn *ssa.Function, a []Value) Value {
@@ -1185,4 +1231,58 @@ func (in *Interp) deepEqual(a, b Value) *Term {
 		return r
 	}
 	return in.eqVal(a, b)
+}
+
+func (in *Interp) deepCopy(v Value, memo map[*Cell]*Cell) Value {
+	switch x := v.(type) {
+	case *Agg:
+		if x == nil {
+			return x
+		}
+		n := &Agg{cells: make([]*Cell, len(x.cells))}
+		for i, c := range x.cells {
+			n.cells[i] = in.deepCopyCell(c, memo)
+		}
+		return n
+	case *Cell:
+		return in.deepCopyCell(x, memo)
+	case *SliceV:
+		if x == nil {
+			return x
+		}
+		a := &Agg{cells: make([]*Cell, x.ln)}
+		for i := 0; i < x.ln; i++ {
+			a.cells[i] = in.deepCopyCell(x.arr.cells[x.off+i], memo)
+		}
+		return &SliceV{arr: a, ln: x.ln, cp: x.ln}
+	case *MapV:
+		if x == nil {
+			return x
+		}
+		m := &MapV{}
+		for i := range x.keys {
+			m.keys = append(m.keys, in.deepCopy(x.keys[i], memo))
+			m.vals = append(m.vals, in.deepCopy(x.vals[i], memo))
+		}
+		return m
+	case *IfaceV:
+		if x == nil {
+			return x
+		}
+		return &IfaceV{typ: x.typ, v: in.deepCopy(x.v, memo)}
+	}
+	return v
+}
+
+func (in *Interp) deepCopyCell(c *Cell, memo map[*Cell]*Cell) *Cell {
+	if c == nil {
+		return nil
+	}
+	if n, ok := memo[c]; ok {
+		return n
+	}
+	n := &Cell{}
+	memo[c] = n
+	n.v = in.deepCopy(c.v, memo)
+	return n
 }
